@@ -392,7 +392,7 @@ def anc_arg(anc, alleles):
 
 
 class SingleBase(Family):
-    prelude = ("From TskVerif Require Import Base.Common C20.Model.\nOpen Scope Z_scope.")
+    prelude = ("From TskVerif Require Import Base.Common C20.Model C20.Spec.\nOpen Scope Z_scope.")
     workers = 8
     shard = 300
 
